@@ -20,7 +20,8 @@ a `BlochWaves` object (zone axis, small tilt, arbitrary orientation; `orientatio
 Tolerance model (documented, calibrated on the tree with the read-only fix applied): abTEM applies the non-zero Laue
 zone factor M_g = (1+g_z/k0)^-1/2 differently in the two paths (eigen path: only on the diagonal of the eigenvector
 matrix; S-matrix path: M S M^-1), so for beams with g_z != 0 the plain sum and the two paths agree only to first order
-in g_z/k0.  The oracle therefore allows  |sum I - 1| <= 1e-9 + 3 W  and  |I_expm - I_eig| <= 1e-8 + 10 W  with
+in g_z/k0.  The oracle therefore allows  |sum I - 1| <= 1e-9 + 5 W + d^2  and  |I_expm - I_eig| <= 1e-8 + 25 W + d^2  with
+d = max_g |g_z|/k0 and
 W = max_z sum_g I_g(z) |g_z|/k0 (computed here from hkl, cell, energy), which is *zero* - i.e. float64 round-off
 tolerances - for zone-axis cases without higher-order Laue zone beams; such cases are counted separately
 (`:no-holz` clauses) and are required.
@@ -42,9 +43,9 @@ RULE = ("crystal drawn from sc/bcc/fcc/diamond/rocksalt/zincblende/CsCl/hcp (pri
 CLAUSES = ["intensity-sum", "intensity-sum:no-holz", "zero-thickness", "lazy-eager:values", "lazy-eager:meta",
            "expm-equals-eig", "expm-equals-eig:no-holz", "structure-matrix-hermitian", "structure-matrix-model",
            "s-matrix-flux-unitary", "ensemble-member"]
-QUICK = dict(n=26, time=45)
-THOROUGH = dict(n=640, time=420, shards=16)
-ASSUMPTIONS = ["beams with g_z != 0 are judged to first order in g_z/k0 (tolerance 3W / 10W, W = sum_g I_g |g_z|/k0); cases "
+QUICK = dict(n=34, time=45)
+THOROUGH = dict(n=1600, time=420, shards=16)
+ASSUMPTIONS = ["beams with g_z != 0 are judged to first order in g_z/k0 (tolerance 5W / 25W, W = sum_g I_g |g_z|/k0); cases "
                "without such beams are judged at float64 round-off",
                "CPU backend; at most ~150 beams per calculation"]
 
@@ -87,7 +88,8 @@ ELEMENTS = ["C", "Si", "O", "Au", "Ti", "Sr", "N", "Cu", "Al", "Mo", "S", "Ga", 
 
 
 def gen(rng, tier):
-    lat = str(rng.choice(list(LATTICES)))
+    # random (non-centrosymmetric) bases are the only crystals for which I_g(z) != I_g(-z) and C^T != C^H matter
+    lat = str(rng.choice(list(LATTICES) + ["random", "random"]))
     kind = LATTICES[lat][0]
     a = float(rng.uniform(2.8, 6.0))
     if kind == "cubic":
@@ -101,7 +103,7 @@ def gen(rng, tier):
         cell = [[a, 0, 0], [0, float(rng.uniform(2.8, 7.0)), 0], [0, 0, float(rng.uniform(2.8, 8.0))]]
     els = [str(e) for e in rng.choice(ELEMENTS, size=2, replace=False)]
     if LATTICES[lat][1] is None:
-        n = int(rng.integers(1, 5))
+        n = int(rng.integers(2, 6))
         basis = [[int(rng.integers(0, 2)), rng.random(3).round(4).tolist()] for _ in range(n)]
     else:
         basis = [[i, [float(x) for x in p]] for i, p in LATTICES[lat][1]]
@@ -176,6 +178,19 @@ def fixed_cases(tier):
         # bcc iron, tilted, low energy: HOLZ factor M != 1
         dict(base, **lat("bcc", 2.866, ["Fe", "Fe"]), input="factor", energy=30e3, g_max=2.5, sg_max=0.1, orientation="tilt",
              angles=[["x", 0.05]], via="matrix", thicknesses=[0.0, 13.0, 250.0, 1000.0]),
+        # non-centrosymmetric projection (4 atoms in general positions), zone axis, no HOLZ beams: complex Hermitian structure
+        # matrix that is not unitarily equivalent to a real one -> sensitive to conjugation and to the sign of z
+        dict(base, lattice="random", cell=[[4.1, 0, 0], [0, 5.2, 0], [0, 0, 3.7]], elements=["Si", "O"],
+             basis=[[0, [0.11, 0.23, 0.07]], [1, [0.47, 0.61, 0.35]], [1, [0.83, 0.19, 0.52]], [0, [0.29, 0.78, 0.91]]],
+             input="factor", energy=200e3, g_max=1.1, sg_max=0.03, orientation="zone", angles=[],
+             thicknesses=[0.0, 40.0, 170.0]),
+        # hexagonal primitive cell whose Miller index range along b exceeds the Cartesian bounding box of the cell
+        # (|k| <= g_max |b| = 12.4 > g_max * b_y = 10.8): found by the thorough tier, `ravel_hkl` raised ValueError
+        dict(base, lattice="hcp", cell=[[5.072743271214982, 0, 0], [-2.536371635607491, 4.393124539748749, 0],
+                                        [0, 0, 8.582317206741074]], elements=["Al", "Au"],
+             basis=[[0, [0.0, 0.0, 0.0]], [0, [1 / 3, 2 / 3, 0.5]]], input="atoms", parametrization="peng", energy=300e3,
+             sg_max=0.08787359033872325, g_max=1.225171868003603, orientation="zone", angles=[], use_wave_eq=True,
+             thicknesses=[46.995, 3.537, 0.0]),
         # hexagonal primitive cell (non-orthogonal), rotation ensemble
         dict(base, **lat("hcp", 3.21, ["Mg", "Mg"]), input="factor", energy=80e3, g_max=1.4, orientation="ensemble",
              angles=[["x", [0.0, 0.02, -0.05]], ["y", [0.01, 0.03]]], thicknesses=[0.0, 150.0]),
@@ -272,6 +287,19 @@ def check(ctx, case):
             _check(ctx, case)
 
 
+def attempt(ctx, name, fn):
+    """Run one stage of the workload; an exception inside the property's domain is a violation of that stage."""
+    from vf.harness import CaseTimeout, Refuted
+    import traceback
+    try:
+        return True, fn()
+    except (CaseTimeout, Refuted):
+        raise
+    except Exception as e:
+        ctx.expect(False, "no-exception:" + name, error=repr(e)[:300], tb=traceback.format_exc()[-900:])
+        return False, None
+
+
 def _check(ctx, case):
     from abtem.bloch import dynamical as D
     from abtem.measurements import IndexedDiffractionPatterns
@@ -295,88 +323,116 @@ def _check(ctx, case):
     g, k0, dz, M = model_quantities(hkl, bw.cell, energy)
     no_holz = bool(dz.max() < 1e-12)
     eps = 2e-4 if f32 else 1e-9
-
-    if case["orientation"] == "ensemble":
-        _check_ensemble(ctx, case, bw, th, th_list, eps)
-
-    # ---------------- eager run of the real pipeline
-    eager = bw.calculate_diffraction_patterns(th, lazy=False)
-    I = np.asarray(eager.array, dtype=np.float64)
-    want_shape = (n,) if isinstance(th, float) else (len(th_list), n)
-    ctx.expect(isinstance(eager, IndexedDiffractionPatterns) and I.shape == want_shape, "lazy-eager:meta",
-               shape=list(I.shape), want=list(want_shape))
-    I2 = I.reshape(len(th_list), n)
-    ctx.expect(np.isfinite(I2).all() and (I2 >= 0).all(), "intensity-sum", what="negative or non-finite intensity")
-    W = float((I2 * dz[None]).sum(-1).max())
-    tol_sum = eps + 3 * W
-    ctx.close(I2.sum(-1), np.ones(len(th_list)), "intensity-sum", rtol=0, atol=tol_sum, W=W, n=n)
-    if no_holz:
-        ctx.close(I2.sum(-1), np.ones(len(th_list)), "intensity-sum:no-holz", rtol=0, atol=eps, n=n)
     e0 = np.zeros(n)
     e0[i0] = 1.0
-    for t, row in zip(th_list, I2):
-        if t == 0.0:
-            ctx.close(row, e0, "zero-thickness", rtol=0, atol=eps + float(dz.max()) ** 2, n=n)
-    ctx.nontrivial(n >= 5 and max(th_list) > 0 and float((1 - I2[:, i0]).max()) > 1e-4)
 
-    # complex amplitudes give the same intensities
-    amp = bw.calculate_diffraction_patterns(th, lazy=False, return_complex=True)
-    ctx.close(np.abs(np.asarray(amp.array)) ** 2, I, "lazy-eager:values", rtol=0, atol=eps * 1e-2 + 1e-14,
-              what="return_complex")
+    def judge_intensities(I2, tag):
+        ctx.expect(np.isfinite(I2).all() and (I2 >= 0).all(), "intensity-sum", what="negative or non-finite intensity", run=tag)
+        W = float((I2 * dz[None]).sum(-1).max())
+        ctx.close(I2.sum(-1), np.ones(len(th_list)), "intensity-sum", rtol=0, atol=eps + 5 * W + float(dz.max()) ** 2, W=W, n=n, run=tag)
+        if no_holz:
+            ctx.close(I2.sum(-1), np.ones(len(th_list)), "intensity-sum:no-holz", rtol=0, atol=eps, n=n, run=tag)
+        for t, row in zip(th_list, I2):
+            if t == 0.0:
+                ctx.close(row, e0, "zero-thickness", rtol=0, atol=eps + float(dz.max()) ** 2, n=n, run=tag)
+
+    if case["orientation"] == "ensemble":
+        attempt(ctx, "rotation-ensemble", lambda: _check_ensemble(ctx, case, bw, th, th_list, eps))
+
+    # ---------------- eager run of the real pipeline
+    def eager_stage():
+        eager = bw.calculate_diffraction_patterns(th, lazy=False)
+        I = np.asarray(eager.array, dtype=np.float64)
+        want_shape = (n,) if isinstance(th, float) else (len(th_list), n)
+        ctx.expect(isinstance(eager, IndexedDiffractionPatterns) and I.shape == want_shape, "lazy-eager:meta",
+                   shape=list(I.shape), want=list(want_shape))
+        I2 = I.reshape(len(th_list), n)
+        judge_intensities(I2, "eager")
+        ctx.nontrivial(n >= 5 and max(th_list) > 0 and float((1 - I2[:, i0]).max()) > 1e-4)
+        # complex amplitudes give the same intensities
+        amp = bw.calculate_diffraction_patterns(th, lazy=False, return_complex=True)
+        ctx.close(np.abs(np.asarray(amp.array)) ** 2, I, "lazy-eager:values", rtol=0, atol=eps * 1e-2 + 1e-14,
+                  what="return_complex")
+        if not isinstance(th, float):
+            ax = eager.ensemble_axes_metadata
+            ctx.expect(len(ax) == 1 and np.allclose(np.asarray(ax[0].values, dtype=float), th_list, rtol=1e-6, atol=1e-6),
+                       "lazy-eager:meta", what="thickness axis", axes=[repr(a) for a in ax])
+        return eager, I, I2
+    ok_e, res = attempt(ctx, "eager", eager_stage)
+    eager, I, I2 = res if ok_e else (None, None, None)
 
     # ---------------- lazy run
-    lazy = bw.calculate_diffraction_patterns(th, lazy=True)
-    ctx.expect(lazy.is_lazy, "lazy-eager:meta", what="lazy=True returned an eager object")
-    lazy = lazy.compute(scheduler="synchronous" if n % 2 else "threads")
-    L = np.asarray(lazy.array, dtype=np.float64)
-    ctx.expect(type(lazy) is type(eager) and L.shape == I.shape, "lazy-eager:meta", lazy=list(L.shape), eager=list(I.shape))
-    ctx.expect(np.array_equal(np.asarray(lazy.miller_indices), np.asarray(eager.miller_indices))
-               and np.array_equal(np.asarray(eager.miller_indices), hkl), "lazy-eager:meta", what="miller indices")
-    ctx.expect(G.approx_struct(G.axes_dicts(lazy), G.axes_dicts(eager)), "lazy-eager:meta", lazy=G.axes_dicts(lazy),
-               eager=G.axes_dicts(eager))
-    if not isinstance(th, float):
-        ax = eager.ensemble_axes_metadata
-        ctx.expect(len(ax) == 1 and np.allclose(np.asarray(ax[0].values, dtype=float), th_list, rtol=1e-6, atol=1e-6),
-                   "lazy-eager:meta", what="thickness axis", axes=[repr(a) for a in ax])
-    if L.shape == I.shape:
-        ctx.close(L, I, "lazy-eager:values", rtol=0, atol=(2e-3 if f32 else 1e-10))
+    def lazy_stage():
+        lazy = bw.calculate_diffraction_patterns(th, lazy=True)
+        ctx.expect(lazy.is_lazy, "lazy-eager:meta", what="lazy=True returned an eager object")
+        lazy = lazy.compute(scheduler="synchronous" if n % 2 else "threads")
+        L = np.asarray(lazy.array, dtype=np.float64)
+        ctx.expect(np.array_equal(np.asarray(lazy.miller_indices), hkl), "lazy-eager:meta", what="miller indices")
+        if eager is None:
+            judge_intensities(L.reshape(len(th_list), n), "lazy")
+            return
+        ctx.expect(type(lazy) is type(eager) and L.shape == I.shape, "lazy-eager:meta", lazy=list(L.shape),
+                   eager=list(I.shape))
+        ctx.expect(np.array_equal(np.asarray(lazy.miller_indices), np.asarray(eager.miller_indices)), "lazy-eager:meta",
+                   what="miller indices")
+        ctx.expect(G.approx_struct(G.axes_dicts(lazy), G.axes_dicts(eager)), "lazy-eager:meta", lazy=G.axes_dicts(lazy),
+                   eager=G.axes_dicts(eager))
+        if L.shape == I.shape:
+            ctx.close(L, I, "lazy-eager:values", rtol=0, atol=(2e-3 if f32 else 1e-10))
+    attempt(ctx, "lazy", lazy_stage)
 
     # ---------------- structure matrix: Hermitian + independent assembly
-    A = np.asarray(bw.calculate_structure_matrix(lazy=False))
-    scale = float(np.abs(A).max())
-    ctx.close(A, A.conj().T, "structure-matrix-hermitian", rtol=0, atol=(1e-6 if f32 else 1e-12) * scale)
-    A_lazy = bw.calculate_structure_matrix(lazy=True)
-    ctx.close(np.asarray(A_lazy.compute(scheduler="synchronous")), A, "lazy-eager:values", rtol=0,
-              atol=(1e-5 if f32 else 1e-12) * scale, what="structure matrix")
-    sfa = bw.structure_factor
-    if not hasattr(sfa, "array"):
-        sfa = sfa.build(lazy=False)
-    sfv = arr(sfa)
-    A_ref = model_structure_matrix(np.asarray(sfa.hkl), sfv, hkl, bw.cell, energy, case["use_wave_eq"])
-    off = ~np.eye(n, dtype=bool)
-    ctx.close(A[off], A_ref[off], "structure-matrix-model", rtol=(1e-5 if f32 else 1e-9), what="off-diagonal")
-    ctx.close(np.diag(A), np.diag(A_ref), "structure-matrix-model", rtol=(1e-5 if f32 else 1e-9),
-              atol=(1e-5 if f32 else 1e-9) * 2 * k0 * case["sg_max"], what="diagonal")
+    def matrix_stage():
+        A = np.asarray(bw.calculate_structure_matrix(lazy=False))
+        scale = float(np.abs(A).max())
+        ctx.close(A, A.conj().T, "structure-matrix-hermitian", rtol=0, atol=(1e-6 if f32 else 1e-12) * scale)
+        sfa = bw.structure_factor
+        if not hasattr(sfa, "array"):
+            sfa = sfa.build(lazy=False)
+        sfv = arr(sfa)
+        A_ref = model_structure_matrix(np.asarray(sfa.hkl), sfv, hkl, bw.cell, energy, case["use_wave_eq"])
+        off = ~np.eye(n, dtype=bool)
+        ctx.close(A[off], A_ref[off], "structure-matrix-model", rtol=(1e-5 if f32 else 1e-9), what="off-diagonal")
+        ctx.close(np.diag(A), np.diag(A_ref), "structure-matrix-model", rtol=(1e-5 if f32 else 1e-9),
+                  atol=(1e-5 if f32 else 1e-9) * 2 * k0 * case["sg_max"], what="diagonal")
+        return A, scale
+    ok_a, res = attempt(ctx, "structure-matrix", matrix_stage)
+    if not ok_a:
+        return
+    A, scale = res
+
+    def lazy_matrix_stage():
+        A_lazy = bw.calculate_structure_matrix(lazy=True)
+        ctx.close(np.asarray(A_lazy.compute(scheduler="synchronous")), A, "lazy-eager:values", rtol=0,
+                  atol=(1e-5 if f32 else 1e-12) * scale, what="structure matrix")
+    attempt(ctx, "lazy-structure-matrix", lazy_matrix_stage)
 
     # ---------------- matrix exponential path
-    A64 = A.astype(np.complex128)
-    Minv = 1.0 / M
-    for k, t in enumerate(th_list):
-        if k >= 3:
-            break
-        if k == 0:
-            S = np.asarray(bw.calculate_scattering_matrix(t))        # method: lazy structure matrix -> expm
-            if hasattr(S, "compute"):
-                S = S.compute()
-        else:
-            S = np.asarray(D.calculate_scattering_matrix(A64, hkl, bw.cell, t, energy))
-        Ie = np.abs(S[:, i0]) ** 2
-        Wt = float((I2[k] * dz).sum())
-        ctx.close(Ie, I2[k], "expm-equals-eig", rtol=0, atol=10 * eps + 10 * Wt, thickness=t, W=Wt, n=n)
-        if no_holz:
-            ctx.close(Ie, I2[k], "expm-equals-eig:no-holz", rtol=0, atol=10 * eps, thickness=t, n=n)
-        U = Minv[:, None] * S * M[None]
-        ctx.close(U.conj().T @ U, np.eye(n), "s-matrix-flux-unitary", rtol=0, atol=(5e-3 if f32 else 1e-8), thickness=t)
+    def expm_stage():
+        A64 = A.astype(np.complex128)
+        Minv = 1.0 / M
+        for k, t in enumerate(th_list):
+            if k >= 3:
+                break
+            if k == 0:
+                S = bw.calculate_scattering_matrix(t)        # method: lazy structure matrix -> expm
+                if hasattr(S, "compute"):
+                    S = S.compute()
+                S = np.asarray(S)
+            else:
+                S = np.asarray(D.calculate_scattering_matrix(A64, hkl, bw.cell, t, energy))
+            U = Minv[:, None] * S * M[None]
+            ctx.close(U.conj().T @ U, np.eye(n), "s-matrix-flux-unitary", rtol=0, atol=(5e-3 if f32 else 1e-8), thickness=t)
+            if t == 0.0:
+                ctx.close(S, np.eye(n), "zero-thickness", rtol=0, atol=(1e-5 if f32 else 1e-10), what="S(0) is the identity")
+            if I2 is None:
+                continue
+            Ie = np.abs(S[:, i0]) ** 2
+            Wt = float((I2[k] * dz).sum())
+            ctx.close(Ie, I2[k], "expm-equals-eig", rtol=0, atol=10 * eps + 25 * Wt + float(dz.max()) ** 2, thickness=t, W=Wt, n=n)
+            if no_holz:
+                ctx.close(Ie, I2[k], "expm-equals-eig:no-holz", rtol=0, atol=10 * eps, thickness=t, n=n)
+    attempt(ctx, "scattering-matrix", expm_stage)
 
 
 def _check_ensemble(ctx, case, bw, th, th_list, eps):
@@ -420,4 +476,4 @@ def _check_ensemble(ctx, case, bw, th, th_list, eps):
         ctx.close(got, full, "ensemble-member", rtol=0, atol=(2e-3 if f32 else 1e-10), member=list(idx))
         g, k0, dz, M = model_quantities(np.asarray(one.hkl), one.cell, case["energy"])
         Wm = float((ref * dz[None]).sum(-1).max())
-        ctx.close(got.sum(-1), np.ones(len(th_list)), "intensity-sum", rtol=0, atol=eps + 3 * Wm, member=list(idx))
+        ctx.close(got.sum(-1), np.ones(len(th_list)), "intensity-sum", rtol=0, atol=eps + 5 * Wm + float(dz.max()) ** 2, member=list(idx))
